@@ -275,7 +275,20 @@ func (fc *FnCtx) applyContract(cs *spec.FuncSpec, name string, args []Val, resT 
 	// havoc assigns
 	for _, a := range cs.Assigns {
 		ec := &evalCtx{fc: fc, vars: vars, cur: pre, old: pre}
+		fc.lastElemsSlice = nil
 		key, ref, vs := ec.location(a)
+		if key == "elems" && fc.lastElemsSlice != nil {
+			// only the slice's window [off, off+cap) of the backing array can change
+			sl := fc.lastElemsSlice
+			oldSeq := smt.Select(fc.getHeap(st, key, vs), ref)
+			nv := fc.S.Fresh("hv_elems", smt.Seq)
+			i := smt.Const("i!w", smt.Int)
+			outside := smt.Or(smt.Lt(i, smt.SlOff(sl)), smt.Ge(i, smt.Add(smt.SlOff(sl), smt.SlCap(sl))))
+			fc.S.Assert(smt.Eq(smt.SLen(nv), smt.SLen(oldSeq)), "arrays keep their length")
+			fc.S.Assert(smt.Forall([]*smt.Term{i}, smt.Implies(outside, smt.Eq(smt.SAt(nv, i), smt.SAt(oldSeq, i))), []*smt.Term{smt.SAt(nv, i)}), "elements outside the slice window are unchanged")
+			fc.writeKey(st, key, ref, nv)
+			continue
+		}
 		switch {
 		case key == "*":
 			fc.havocAll(st)
